@@ -30,7 +30,7 @@ CLAIMED = {
              design="5/C08", technique="Lean 4 proof by induction over histories (gc queue provenance) + differential execution with a gated collector and a controlled clock, and with explicit removals racing the free-running head:N collector"),
  "C09": dict(text="Theorems: an ephemeral append changes no partition/registry/queue and is broadcast; time:N frames are returned by neither read path once elapsed and are gone after "
              "an unlimited read + drain; a pending head:k check leaves at most k frames after drain and the survivors are exactly the k newest.",
-             design="5/C09", technique="Lean 4 proof over the gc model + differential execution (clock at expiry ±1 ms, per-task gc release)"),
+             design="5/C09", technique="Lean 4 proof over the gc model + differential execution (clock at expiry ±1 ms, per-task gc release, expiry passing mid-scan, ephemeral appends racing a follower's subscription under controlled schedules)"),
  "C20": dict(text="Theorems: importing any permutation of a reachable store's frames into an empty store yields the same stored frames (ids, order, fields) and the same usable "
              "contexts, hence identical reads/gets/heads; import order irrelevant; re-import idempotent; import keeps id and id-position; NUL topic rejected whole; import is silent.",
              design="5/C20", technique="Lean 4 proof (permutation invariance via sorted-list extensionality) + differential execution incl. export→permuted re-import round trips, at the store level and between two servers over HTTP"),
@@ -73,13 +73,13 @@ CLAIMED = {
              "commit at most one batch; an image holding the batches of the first k operations (plus any torn tail) recovers to the state after those k operations; a crash during a write recovers to the "
              "state before or after it; the recovered partitions with the rebuilt registry satisfy the store invariant. fjall's journal contract is assumed and exercised: SIGKILL after / during operations, "
              "torn-tail (power-loss) images, a syscall-level check that every acknowledgement follows an fsync of the journal, content present for visible hashed frames.",
-             design="5/C04", technique="Lean 4 proof over a journal model (one-batch-per-operation refinement); crash images from real kills + strace-checked fsync-before-ack discipline",
+             design="5/C04", technique="Lean 4 proof over a journal model (one-batch-per-operation refinement); crash images from real kills (random instants, every write(2) of multi-key histories, sync points inside HTTP appends) + strace-checked fsync-before-ack discipline",
              note="J"),
  "C14": dict(text="Theorems over the Lean model of one handler instance (Handler::serve / process_frame / EngineWorker; the closure is an arbitrary function of environment and frame): the closure "
              "is run for exactly the frames of its subscription that are neither its own output nor registration traffic of its name - each once, in delivery order, up to the frame that stops it; never for "
              "its own output (so it cannot feed itself), never after it stopped; the subscription holds its context's frames only and every frame appended after it subscribed; the environment of one call "
              "is what the next starts from; invocations are in increasing id order when the stream is. Every started instance of every scenario is replayed on the model.",
-             design="5/C14", technique="Lean 4 proof over a model of the handler loop (closure as a parameter); correspondence by replaying each real instance's subscription on the model", note="S"),
+             design="5/C14", technique="Lean 4 proof over a model of the handler loop (closure as a parameter); correspondence by replaying each real instance's subscription on the model, incl. pulse markers and appends during a held replay", note="S"),
  "C15": dict(text="Theorems: every frame a call emits carries handler_id and frame_id (written after the user's meta, so they cannot be overridden; other user keys survive) and the handler's context whatever "
              "--context said; a successful call emits the explicit appends in call order, then the return value on <name><suffix> with the configured TTL; a failing call emits nothing but one "
              "<name>.unregistered with the error, wherever the failure sits - also when one of its frames could not be stored; interleaved outputs of different instances separate by their stamp. The run also checks that each emitted frame's content is in the CAS when a follower is handed the frame.",
@@ -89,7 +89,7 @@ CLAIMED = {
              "so everything appended once <name>.registered is visible is in the subscription's live part; every .register is answered by exactly one frame; a tail handler superseded before it subscribed never starts; "
              "a started instance is handed every later .register / .unregister of its key (any resume mode) and ends stopped; the start-up scan keeps one registration per (context, name). The subscribe/announce order of the "
              "real code is read from sync points.",
-             design="5/C16", technique="Lean 4 proof over the handler and serve-loop models; correspondence incl. sync-point order of subscribe vs announce", note="S"),
+             design="5/C16", technique="Lean 4 proof over the handler and serve-loop models, incl. the joint LTS of serve loop, all instances and clients; correspondence incl. sync-point order of subscribe vs announce", note="S"),
  "C17": dict(text="Theorems over the fold model of the start-up scan (handlers/serve.rs) keyed by (context, name): a registration is started again iff nothing later in the stored stream dropped it (characterisation "
              "of the fold for every history); given that stops are announced (C16), that is iff its live instance was still running (for an instance the loop started, the coverage hypothesis is a theorem); replaced / failed / rejected / unregistered registrations never come back; "
              "frames of other contexts are irrelevant; restarts are in id order with the register frame's id; tail resumption re-executes nothing. Kill + restart scenarios compare who is announced with the model. "
